@@ -27,9 +27,33 @@ type ExSpec struct {
 	Keys  [][]string `json:"keys,omitempty"`  // the Variant-Key list of this representation
 	// SplitKeys: the Variant-Key header is supplied as one field value per key (repeated header)
 	SplitKeys bool `json:"split_keys,omitempty"`
+	// SelfSimilar: see Body
+	SelfSimilar bool `json:"self_similar,omitempty"`
 }
 
-func (e *ExSpec) Body() []byte { return gen.Filler(e.BodyLen, e.BodyTag) }
+// Body is BodyLen octets of filler; with SelfSimilar the body BEGINS with a complete small web
+// bundle (a body is opaque, whatever it looks like: magic bytes, section tables and trailing
+// lengths inside a payload must not confuse a reader or a writer).
+func (e *ExSpec) Body() []byte {
+	b := gen.Filler(e.BodyLen, e.BodyTag)
+	if e.SelfSimilar {
+		copy(b, miniBundle())
+		gen.Reseal(b)
+	}
+	return b
+}
+
+var miniBundleOnce []byte
+
+func miniBundle() []byte {
+	if miniBundleOnce == nil {
+		a := refbundle.Asm{Version: "b2", Resps: []refbundle.AsmResp{{Fields: []refbundle.HeaderField{{Name: ":status", Value: "200"}}, BodyLen: 3, BodyTag: 1}},
+			Index:    []refbundle.AsmIndex{{URL: "https://a.example/inner", Resps: []int{0}}},
+			Sections: []refbundle.AsmSection{{Name: "index", Kind: "index", Decoy: -1}, {Name: "responses", Kind: "responses", Decoy: -1}}}
+		miniBundleOnce, _ = refbundle.Assemble(&a)
+	}
+	return miniBundleOnce
+}
 
 type AuthSpec struct {
 	Fixture int `json:"fixture"`  // -1 = the CA certificate
@@ -327,7 +351,7 @@ func oddHeader(t *rapid.T) gen.HeaderKV {
 }
 
 func exchange(t *rapid.T, u string) ExSpec {
-	e := ExSpec{URL: u, Status: 200, BodyLen: bodyLen(t, "body"), BodyTag: rapid.Uint64().Draw(t, "bodytag")}
+	e := ExSpec{URL: u, Status: 200, BodyLen: bodyLen(t, "body"), BodyTag: rapid.Uint64().Draw(t, "bodytag"), SelfSimilar: rapid.IntRange(0, 9).Draw(t, "selfsimilar") == 0}
 	if rapid.IntRange(0, 2).Draw(t, "oddstatus") == 0 {
 		e.Status = rapid.SampledFrom([]int{100, 101, 204, 301, 404, 500, 599, 600, 999}).Draw(t, "status")
 	}
